@@ -142,8 +142,9 @@ def wrapper(ctx, rel, name, kernel, vector):
     ev0 = SymEval(module_aliases(ctx.mod(rel)))
     ev0.module = ctx.mod(rel)
     V1, V2, V3 = symarray('u', (3, 3), real=True), symarray('w', (3, 3), real=True), symarray('z', (3, 3), real=True)
-    bx = SymObj(None, {'vects': V1}, 'box')
-    bx2 = SymObj(None, {'vects': V3}, 'box2')
+    _opq = lambda c: np.asarray(c, dtype=object) * 0 + sp.Symbol('anyrel', real=True)
+    bx = SymObj(None, {'vects': V1, 'origin': arr([0, 0, 0]), 'position_cartesian_to_relative': _opq}, 'box')
+    bx2 = SymObj(None, {'vects': V3, 'origin': arr([0, 0, 0]), 'position_cartesian_to_relative': _opq}, 'box2')
 
     def kern0(p0, p1, bvv, fa, fb, fc):
         seen.append(bvv)
@@ -161,17 +162,28 @@ def wrapper(ctx, rel, name, kernel, vector):
     # broadcasting, via evaluation with the kernel bound to the direct separation
     ev = SymEval(module_aliases(ctx.mod(rel)))
     B = symarray('b', (3, 3), real=True)
-    box = SymObj(None, {'vects': B}, 'box')
+
+    def _relative(c):
+        # box-relative coordinates of arbitrary points: opaque real numbers (whole-cell offsets between the two points are not zero in general)
+        c = np.asarray(c, dtype=object)
+        out = np.empty(c.shape, dtype=object)
+        for ix in np.ndindex(c.shape):
+            out[ix] = sp.Symbol('rel_%s_%s' % ('_'.join(map(str, ix)), abs(hash(str(c[ix]))) % 10 ** 6), real=True)
+        return out
+    box = SymObj(None, {'vects': B, 'origin': arr([0, 0, 0]), 'position_cartesian_to_relative': _relative, 'position_relative_to_cartesian': lambda r_: np.asarray(r_, dtype=object).dot(B)}, 'box')
+    handed = []
 
     def kern(p0, p1, bv, fa, fb, fc):
         p0, p1 = np.asarray(p0, dtype=object), np.asarray(p1, dtype=object)
         if p0.shape != p1.shape or p0.ndim != 2:
             raise Opaque('kernel called with shapes %s %s' % (p0.shape, p1.shape))
+        handed.append((p0, p1))
         return (p1 - p0) if vector else np.sum((p1 - p0) ** 2, axis=1)
     cases = [((3,), (3,), (1,)), ((3,), (2, 3), (2,)), ((2, 3), (3,), (2,)), ((1, 3), (2, 3), (2,)), ((2, 3), (2, 3), (2,))]
     for s0, s1, lead in cases:
         p0, p1 = symarray('p', s0, real=True), symarray('q', s1, real=True)
         env = {'pos_0': p0, 'pos_1': p1, 'box': box, 'pbc': (True, True, True), kernel: kern}
+        del handed[:]
         try:
             paths = ev.run_fn(fn, env=env)
             live = [p for p in paths if p.done == 'return']
@@ -181,6 +193,12 @@ def wrapper(ctx, rel, name, kernel, vector):
         a0 = np.atleast_2d(p0)
         a1 = np.atleast_2d(p1)
         ok = r is not None and tuple(np.shape(r))[:1] == lead
+        # the kernel is handed the positions as they were given (it searches the images itself, along periodic directions only): no whole-cell shift is applied beforehand
+        if handed:
+            h0, h1 = handed[-1]
+            okh = all(equal(h0[i], a0[min(i, len(a0) - 1)], deep=False) and equal(h1[i], a1[min(i, len(a1) - 1)], deep=False) for i in range(len(h0)))
+            ctx.ob('WRAPPER', loc, 'shapes %s and %s: the kernel receives the positions as given (no shift by whole cell vectors before the image search, which follows the periodic flags)' % (s0, s1), bool(okh), node=fn,
+                   key='as given %s %s' % (s0, s1))
         if ok:
             for i in range(lead[0]):
                 dd = a1[min(i, len(a1) - 1)] - a0[min(i, len(a0) - 1)]
@@ -208,7 +226,9 @@ def pairing(ctx):
         return sp.Symbol('D')
     # mixed periodicity, different in the two systems: the flags reach the kernel as they are (no shortcut for "not fully periodic")
     PB = {0: (True, False, True), 1: (False, True, True)}
-    mk = lambda k: SymObj(None, {'natoms': sp.Symbol('N'), 'atoms': SymObj(None, {'pos': sp.Symbol('pos%d' % k)}, 'atoms%d' % k), 'box': 'box%d' % k, 'pbc': PB[k]}, 'system_%d' % k)
+    # (a system's own dvect method is the kernel under that system's box and periodicity)
+    mk = lambda k: SymObj(None, {'natoms': sp.Symbol('N'), 'atoms': SymObj(None, {'pos': sp.Symbol('pos%d' % k)}, 'atoms%d' % k), 'box': 'box%d' % k, 'pbc': PB[k],
+                                 'dvect': (lambda p0, p1, _k=k: dv(p0, p1, 'box%d' % _k, PB[_k]))}, 'system_%d' % k)
     s0, s1 = mk(0), mk(1)
     for ref, want in (('final', ('box1', PB[1])), ('initial', ('box0', PB[0]))):
         del rec[:]
@@ -225,6 +245,28 @@ def pairing(ctx):
     ctx.ob('PAIRING', loc, 'unknown box_reference is refused', all(p.done == 'raise' for p in paths), node=fn, key='pair refuse')
     t = [s for s in fn.body if isinstance(s, ast.If) and 'natoms' in norm(s.test)]
     ctx.ob('PAIRING', loc, 'systems with different atom counts are refused', len(t) == 1 and any(isinstance(x, ast.Raise) for x in t[0].body), node=fn, key='natoms refuse')
+    # one row per atom, also for a single atom: systems modelled on the real System class (its dvect method hands a single separation back unwrapped)
+    syscls = ctx.fn(SYS, 'System')
+    for natoms in (2, 1):
+        for ref in ('final', 'initial'):
+            kcalls = []
+
+            def kernel(p0, p1, box=None, pbc=None, _k=kcalls):
+                _k.append((np.asarray(p0, dtype=object), np.asarray(p1, dtype=object), box, pbc))
+                return symarray('sep', (max(np.shape(np.atleast_2d(p0))[0], np.shape(np.atleast_2d(p1))[0]), 3), real=True)
+            mk2 = lambda k: SymObj(syscls, {'natoms': sp.Integer(natoms), 'atoms': SymObj(None, {'pos': symarray('q%d' % k, (natoms, 3), real=True)}, 'atoms%d' % k), 'box': 'box%d' % k, 'pbc': PB[k]}, 'system_%d' % k)
+            t0, t1 = mk2(0), mk2(1)
+            ev3 = SymEval(module_aliases(ctx.mod(DISP)))
+            ev3.globals = {'dvect': kernel}
+            try:
+                live = [q for q in ev3.run_fn(fn, [t0, t1], {'box_reference': ref}) if q.done == 'return']
+            except (Opaque, WouldRaise) as e:
+                raise AnalysisError('displacement on %d-atom systems: %s' % (natoms, e))
+            r_ = live[0].ret if len(live) == 1 else None
+            want_sys = 'box1' if ref == 'final' else 'box0'
+            ok = r_ is not None and np.shape(r_) == (natoms, 3) and len(kcalls) == 1 and kcalls[0][2] == want_sys and tuple(kcalls[0][3]) == PB[1 if ref == 'final' else 0]
+            ctx.ob('PAIRING', loc, '%d-atom systems, box_reference=%r: one separation row per atom (shape (%d, 3)), from the kernel under that system\'s box and periodicity' % (natoms, ref, natoms), bool(ok),
+                   'result shape %s, kernel calls %s' % (np.shape(r_) if r_ is not None else None, [(c[2], c[3]) for c in kcalls]), node=fn, key='rows %d %s' % (natoms, ref))
     # System.dvect / System.dmag: evaluated on a model system with a recording kernel
     cls = ctx.fn(SYS, 'System')
     POS = symarray('r', (5, 3), real=True)
